@@ -50,6 +50,10 @@ def apply_corruption(data, kind, path, key, value):
         d[key] = json.loads(value)
     elif kind == 'remove_top':
         del d[key]
+    elif kind == 'reverse_params':
+        items = list(node.items())
+        node.clear()
+        node.update(reversed(items))
     elif kind == 'wrap_visibility':
         d['observation_function'] = {'name': 'from_visibility', 'area': node['area'], 'visibility_function': json.loads(value)}
     return d
@@ -158,7 +162,16 @@ def registry_drift(ctx, table, required):
 
 
 def traj_records(env, data, cfg, seed, nsteps, rid0):
-    """run an environment; step records (for Trace_Step), reset records, observation records"""
+    """run an environment; step records (for Trace_Step), reset records, observation records.
+    An environment that raises while it is run gets the digest 'raise:<exception>' (total: the comparison with the
+    hand-assembled environment then reports it)"""
+    try:
+        return _traj_records(env, data, cfg, seed, nsteps, rid0)
+    except Exception as e:
+        return 'raise:' + type(e).__name__ + ':' + str(e)[:120], [], [], []
+
+
+def _traj_records(env, data, cfg, seed, nsteps, rid0):
     rng = random.Random(seed)
     env.set_seed(seed)
     env.reset()
@@ -193,6 +206,44 @@ def traj_records(env, data, cfg, seed, nsteps, rid0):
             env.reset()
             rrecs.append({'id': rid0 + t + 1, 'f': f, 'p': p, 'outcome': 'ok', 'st': proj.state_to_json(env.state), 'drift': False, 'seed': seed})
     return digest.hexdigest(), srecs, orecs, rrecs
+
+
+def probe_differs(env_a, env_b, seed=5):
+    """the two environments, seeded alike, must pay and terminate alike on probes a short random walk rarely reaches:
+    every action from the reset state and a step onto every Exit from every free neighbour cell"""
+    from gym_gridverse.geometry import Orientation, Position
+    from gym_gridverse.grid_object import Exit
+    from gym_gridverse.utils.fast_copy import fast_copy
+
+    def both(f):
+        out = []
+        for e in (env_a, env_b):
+            e.set_seed(seed)
+            try:
+                out.append(f(e))
+            except Exception as ex:
+                out.append('raise:' + type(ex).__name__)
+        return out[0] != out[1]
+
+    env_a.set_seed(seed)
+    s0 = env_a.functional_reset()
+    for a in env_a.action_space.actions:
+        if both(lambda e: (lambda r: (proj.state_to_json(r[0]), repr(float(r[1])), bool(r[2])))(e.functional_step(fast_copy(s0), a))):
+            return f'functional_step({a.name}) from the reset state'
+    if Action.MOVE_FORWARD not in env_a.action_space.actions:
+        return None
+    for pos in s0.grid.area.positions():
+        if not isinstance(s0.grid[pos], Exit):
+            continue
+        for ori in Orientation:
+            back = pos - Position.from_orientation(ori)
+            if not s0.grid.area.contains(back) or s0.grid[back].blocks_movement:
+                continue
+            s = fast_copy(s0)
+            s.agent.position, s.agent.orientation = back, ori
+            if both(lambda e: (lambda r: (repr(float(r[1])), bool(r[2])))(e.functional_step(fast_copy(s), Action.MOVE_FORWARD))):
+                return f'step onto the exit at {pos} from {back}'
+    return None
 
 
 def registry_part(ctx):
@@ -391,7 +442,7 @@ def run(ctx, replay=None):
             elif out == 'accept' and kind == 'set_top' and key == 'action_space' and [a.name for a in env.action_space.actions] != json.loads(value):
                 ctx.violation(f'{name}: configured action order {value} became {[a.name for a in env.action_space.actions]}',
                               {'kind': 'corruption', 'file': name, 'corruption': [kind, cpath, key, value]})
-            elif out == 'accept' and kind in ('add_param', 'remove_param', 'set_value', 'set_top', 'wrap_visibility'):
+            elif out == 'accept' and kind in ('add_param', 'remove_param', 'set_value', 'set_top', 'wrap_visibility', 'reverse_params'):
                 # still the described environment: compare with the hand-assembled one
                 env3 = hand_assemble(snapshot, table)
                 cfg = config.spec_config(snapshot)
@@ -400,6 +451,11 @@ def run(ctx, replay=None):
                 if d1 != d3:
                     ctx.violation(f'{name}: after [{desc}] the built environment differs from the hand-assembled one',
                                   {'kind': 'corruption', 'file': name, 'corruption': [kind, cpath, key, value]})
+                else:
+                    where = probe_differs(env, env3)
+                    if where:
+                        ctx.violation(f'{name}: after [{desc}] the built environment differs from the hand-assembled one on {where}',
+                                      {'kind': 'corruption', 'file': name, 'corruption': [kind, cpath, key, value], 'probe': where})
             if len(ctx.cov['samples']) < 4:
                 ctx.sample({'file': name, 'corruption': desc, 'verdict': verdict, 'observed': out})
     ctx.add_counts(evaluations=n_corr, nontrivial=n_corr, traces=n_corr)
